@@ -9,8 +9,9 @@ import KavaVerif.Model.BlockSafety
     (PREDFAIL C02_invariants_hold <routes>).
   * `c02.debtsplit deps debt => class shares` — the real `cdp.Keeper.AuctionCollateral` on a deposit set:
     (1) the Lean transcription `debtShares` must give the same per-depositor shares (MISMATCH);
-    (2) the predicate "the shares never exceed the debt" is evaluated on the observed shares
-        (PREDFAIL C02_cdp_debt_split over-allocated — finding F2).
+    (2) the predicate "the shares add up to exactly the debt" is evaluated on the observed shares
+        (PREDFAIL C02_cdp_debt_split over-allocated / under-allocated; over-allocation was finding F2,
+        fixed by bfd342e03 — a reappearance is a regression).
 -/
 namespace Drv.C02
 open KV.Safe
@@ -31,6 +32,7 @@ def handleDebtSplit : Handler
         let model := debtShares ds debt
         if model != ss then mismatch "debtShares" (showInts model) (showInts ss)
         else if sumInts ss > debt then predfail "C02_cdp_debt_split" s!"over-allocated sum={sumInts ss} debt={debt} deposits={deps}"
+        else if sumInts ss < debt then predfail "C02_cdp_debt_split" s!"under-allocated sum={sumInts ss} debt={debt} deposits={deps}"
         else "ok"
     | _, _, _ => badInput "ints"
   | _ => badInput "c02.debtsplit arity"
